@@ -32,4 +32,14 @@ theorem validator_exit_ranges_order_free :
 /-- the extractor still sees the loops (the table is not vacuously fine) -/
 theorem validator_exit_ranges_seen : Generated.validatorExitRanges.length ≥ 8 := by decide
 
+/-- the options object is shared by pointer through a validator tree: its fields are assigned only by the option
+    setters (before any validator exists) and once at the top of `(*SpecValidator).Validate` (before the validators of
+    that run are built) — never while validators that read them are alive -/
+theorem option_writes_only_in_setters :
+    Generated.optionWrites.map (·.2) =
+      ["EnableObjectArrayTypeCheck: svo.EnableObjectArrayTypeCheck", "EnableArrayMustHaveItemsCheck: svo.EnableArrayMustHaveItemsCheck",
+       "SwaggerSchema: svo.EnableObjectArrayTypeCheck", "SwaggerSchema: svo.EnableArrayMustHaveItemsCheck",
+       "WithRecycleValidators: svo.recycleValidators", "withRecycleResults: svo.recycleResult",
+       "WithSkipSchemataResult: svo.skipSchemataResult", "SpecValidator.Validate: s.schemaOptions.skipSchemataResult"] := by decide
+
 end VM.C08
